@@ -561,7 +561,9 @@ impl Check for C04 {
                     crate::gen::build::Focus::Closures,
                     crate::gen::build::Focus::Effects,
                     crate::gen::build::Focus::Scopes,
-                ][(index % 5) as usize];
+                    crate::gen::build::Focus::Traits,
+                ][(index % 6) as usize];
+                cfg.traits = index % 2 == 1 || cfg.focus == crate::gen::build::Focus::Traits;
                 if phase == "prog" {
                     let p = crate::gen::build::gen_program(&mut d, cfg, &mut open);
                     Case::new(json!({"text": crate::gen::render::render(&p), "prog": true}))
